@@ -167,4 +167,162 @@ theorem translated_covered :
       "Track.copy", "Track.to_sequence", "Composition.__init__", "Composition.copy", "Composition.from_sequences",
       "Composition.to_sequences"] := by decide
 
+/-! ### Track and Composition (no hand model: the theorems characterise the translated methods directly) -/
+
+/-- a loop that appends the result of a possibly failing call is `mapM` -/
+theorem forIn_collectM {α β} (l : List α) (init : List β) (f : α → Except Err β) :
+    (forIn l init (fun a b => (do let x ← f a; pure (ForInStep.yield (b ++ [x])) : Except Err (ForInStep (List β))))) =
+      (fun xs => init ++ xs) <$> l.mapM f := by
+  induction l generalizing init with
+  | nil => simp
+  | cons a as ih =>
+    simp only [List.forIn_cons, List.mapM_cons]
+    cases f a with
+    | error x => rfl
+    | ok x =>
+      have h := ih (init ++ [x])
+      simp only [ok_bind, pure_eq] at h ⊢
+      rw [h]
+      cases List.mapM f as <;> simp
+
+/-- `Track.to_sequence()` is `Bar.to_sequence(self.bars)` -/
+theorem trackToSequence_eq (e : Env) (t : GTrack) :
+    Gen.Elem.trackToSequence e t = (fun s => (t, s)) <$> Gen.Elem.barsToSequence e t.bars := by
+  simp only [Gen.Elem.trackToSequence]
+  cases Gen.Elem.barsToSequence e t.bars <;> rfl
+
+/-- `Composition(tracks)` just stores the tracks -/
+theorem compInit_eq (e : Env) (ts : List GTrack) : Gen.Elem.compInit e ts = .ok { tracks := ts } := rfl
+
+/-- **`Track.copy()` copies every bar (`Bar.copy`) and constructs a new track from the copies** — a shallow copy that reuses the bars
+    changes the regenerated function and breaks this theorem -/
+theorem trackCopy_eq (e : Env) (t : GTrack) :
+    Gen.Elem.trackCopy e t =
+      (do let bs ← t.bars.mapM (fun b => (·.2) <$> Gen.Elem.barCopy e b)
+          let c ← Gen.Elem.trackInit e bs ()
+          pure (t, c)) := by
+  have h : (fun (bar_ : GBar) => (do let r1 ← Gen.Elem.barCopy e bar_; pure r1.2 : Except Err GBar)) =
+      (fun b => (·.2) <$> Gen.Elem.barCopy e b) := by
+    funext b; cases Gen.Elem.barCopy e b <;> rfl
+  simp only [Gen.Elem.trackCopy, h]
+
+/-- **`Composition.copy()` copies every track (`Track.copy`)** -/
+theorem compCopy_eq (e : Env) (c : GComposition) :
+    Gen.Elem.compCopy e c =
+      (do let ts ← c.tracks.mapM (fun t => (·.2) <$> Gen.Elem.trackCopy e t)
+          pure (c, { tracks := ts })) := by
+  have h : (fun (track_ : GTrack) => (do let r1 ← Gen.Elem.trackCopy e track_; pure r1.2 : Except Err GTrack)) =
+      (fun t => (·.2) <$> Gen.Elem.trackCopy e t) := by
+    funext t; cases Gen.Elem.trackCopy e t <;> rfl
+  simp only [Gen.Elem.compCopy, h, compInit_eq]
+  cases List.mapM (fun t => (·.2) <$> Gen.Elem.trackCopy e t) c.tracks <;> rfl
+
+/-- **`Composition.to_sequences()` is `Track.to_sequence()` of every track, in order** -/
+theorem compToSequences_eq (e : Env) (c : GComposition) :
+    Gen.Elem.compToSequences e c =
+      (fun ss => (c, ss)) <$> c.tracks.mapM (fun t => (·.2) <$> Gen.Elem.trackToSequence e t) := by
+  have h : ∀ (l : List GTrack) (init : List Seq),
+      (forIn l init (fun track_ r => (do let r1 ← Gen.Elem.trackToSequence e track_; pure (ForInStep.yield (r ++ [r1.2])) :
+          Except Err (ForInStep (List Seq))))) =
+        (fun xs => init ++ xs) <$> l.mapM (fun t => (·.2) <$> Gen.Elem.trackToSequence e t) := by
+    intro l init
+    have := forIn_collectM l init (fun t => (·.2) <$> Gen.Elem.trackToSequence e t)
+    rw [← this]
+    congr 1; funext a b
+    cases Gen.Elem.trackToSequence e a <;> rfl
+  simp only [Gen.Elem.compToSequences, h]
+  cases List.mapM (fun t => (·.2) <$> Gen.Elem.trackToSequence e t) c.tracks <;> simp
+
+
+theorem mapM_ok {α β} (l : List α) (g : α → β) :
+    l.mapM (fun x => (Except.ok (g x) : Except Err β)) = .ok (l.map g) := by
+  induction l with
+  | nil => rfl
+  | cons a as ih => simp [List.mapM_cons, ih]
+
+theorem mapM_map {α β γ} (l : List α) (h : α → β) (f : β → Except Err γ) :
+    (l.map h).mapM f = l.mapM (fun x => f (h x)) := by
+  induction l with
+  | nil => rfl
+  | cons a as ih => simp [List.mapM_cons, ih]
+
+/-- `for i in range(0, len(l)): … l[i] …` visits the elements of `l` in order -/
+theorem range_mapM_get {α β} (l : List α) (g : α → Except Err β) :
+    (List.range l.length).mapM (fun i => (do let x ← pyGetNat l i; g x : Except Err β)) = l.mapM g := by
+  induction l with
+  | nil => rfl
+  | cons a as ih =>
+    rw [List.length_cons, List.range_succ_eq_map, List.mapM_cons, mapM_map, List.mapM_cons]
+    have h : (fun i => (do let x ← pyGetNat (a :: as) (i + 1); g x : Except Err β)) =
+        (fun i => (do let x ← pyGetNat as i; g x : Except Err β)) := by
+      funext i; simp [pyGetNat]
+    simp only [Nat.succ_eq_add_one, h, ih]
+    simp [pyGetNat]
+
+/-- what `Track.__init__` computes from the program changes of the concatenated bars -/
+def trackProgram (bars : List GBar) (pcs : List Msg) : Except Err GTrack :=
+  match pcs with
+  | [] => .ok { bars := bars, program := pyNone }
+  | p :: _ => if pcs.all (fun m => decide (m.prog = p.prog)) then .ok { bars := bars, program := p.prog } else .error .sequenceError
+
+/-- **`Track(bars)`**: the bars are stored; the program is that of the first program change of the concatenated bars (read through
+    `messages_rel()`), `None` without any, and a `TrackException` (error code `sequenceError`) when two program changes disagree -/
+theorem trackInit_eq (e : Env) (bars : List GBar) :
+    Gen.Elem.trackInit e bars () =
+      (do let s ← Gen.Elem.barsToSequence e bars
+          let r ← Gen.Wrap.messagesRel e s id
+          trackProgram bars (r.1.rel.filter (fun m => m.ty == MType.programChange))) := by
+  simp only [Gen.Elem.trackInit]
+  cases Gen.Elem.barsToSequence e bars with
+  | error x => rfl
+  | ok s =>
+    simp only [ok_bind]
+    cases Gen.Wrap.messagesRel e s id with
+    | error x => rfl
+    | ok r =>
+      simp only [ok_bind]
+      cases hp : r.1.rel.filter (fun m => m.ty == MType.programChange) with
+      | nil => simp [trackProgram]
+      | cons p ps =>
+        simp [trackProgram, pyGetInt, pyGetNat, mapM_ok]
+        by_cases h : ∀ x ∈ ps, x.prog = p.prog
+        · have h' : ¬ ∃ a ∈ ps, ¬a.prog = p.prog := by
+            rintro ⟨a, ha, hna⟩; exact hna (h a ha)
+          simp [h, h']
+        · have h' : ∃ a ∈ ps, ¬a.prog = p.prog := by
+            simpa [not_forall] using h
+          simp [h, h']
+
+/-- **`Composition.from_sequences(sequences, meta_track_index)`**: split into bars (link `View.seq_split_bars`, re-quantisation on by
+    default), one `Track` per list of bars, in order -/
+theorem compFromSequences_eq (e : Env) (seqs : List Seq) (metaIdx : Nat) :
+    Gen.Elem.compFromSequences e seqs metaIdx =
+      (do let tb ← View.seq_split_bars e seqs metaIdx true
+          let ts ← tb.mapM (fun bs => Gen.Elem.trackInit e bs ())
+          pure { tracks := ts }) := by
+  simp only [Gen.Elem.compFromSequences]
+  cases View.seq_split_bars e seqs metaIdx true with
+  | error x => rfl
+  | ok tb =>
+    simp only [ok_bind]
+    have h := forIn_collectM (List.range tb.length) ([] : List GTrack)
+      (fun i => (do let x ← pyGetNat tb i; Gen.Elem.trackInit e x () : Except Err GTrack))
+    rw [range_mapM_get] at h
+    have h2 : (forIn (List.range tb.length) ([] : List GTrack) fun trackIndex_ __s =>
+          (do let x2 ← pyGetNat tb trackIndex_
+              let o3 ← Gen.Elem.trackInit e x2 ()
+              pure (ForInStep.yield (__s ++ [o3])) : Except Err (ForInStep (List GTrack)))) =
+        (fun xs => [] ++ xs) <$> List.mapM (fun x => Gen.Elem.trackInit e x ()) tb := by
+      rw [← h]; congr 1; funext a b
+      cases pyGetNat tb a with
+      | error x => rfl
+      | ok x => simp only [ok_bind]
+    rw [h2]
+    cases List.mapM (fun x => Gen.Elem.trackInit e x ()) tb <;> simp [compInit_eq]
+
+/-- the default arguments of the translated element methods are pinned -/
+theorem elem_defaults_pinned :
+    Gen.Elem.defaults = ["Bar.__init__(key=None)", "Bar.__init__(default_channel=0)", "Track.__init__(name=None)", "Composition.from_sequences(meta_track_index=0)"] := by
+  decide
+
 end SCoda.ElemTie
